@@ -20,6 +20,7 @@ CONSTANTS
   CfModes = {"plain"}
   DevRebuildMergesAcrossState = FALSE
   DevEncCheckIgnoresStrict = FALSE
+  DevCasefoldOpaqueHashFails = TRUE
   DevDupFoldsPlainDir = FALSE
   DevInodeUninitWipes = FALSE
 POSTCONDITION TraceAccepted
